@@ -49,6 +49,8 @@ def tok_str(t, doc="d"):
         out += "..."
     elif k == "comma":
         out += "a,b"
+    elif k == "trailhash":
+        out += "a#"
     return out
 
 
